@@ -192,6 +192,8 @@ EncItems(sd, items, i, st, outerEop) ==
 EncDop(d, v, st, bit) ==
     IF st.err THEN st ELSE
     CASE d.k = "simple" -> EncAtomic(d.dct, v, st, bit)
+      \* a DTC object is coded like a simple one; its values are the trouble codes the description defines
+      [] d.k = "dtc" -> IF v.t = "int" /\ \E i \in 1..Len(d.codes) : d.codes[i] = v.v THEN EncAtomic(d.dct, v, st, bit) ELSE Err(st)
       [] d.k = "struct" ->
            LET s1 == EncComposite(d.ps, v, st, bit) IN
            IF s1.err \/ d.bs < 0 THEN s1
@@ -358,6 +360,9 @@ DecToMarker(d, ds, acc) ==
 DecDop(d, ds, bit) ==
     IF ds.err THEN R(ds, Missing) ELSE
     CASE d.k = "simple" -> DecAtomic(d.dct, ds, bit)
+      [] d.k = "dtc" -> LET r == DecAtomic(d.dct, ds, bit) IN
+                        IF r.ds.err THEN r
+                        ELSE IF r.v.t = "int" /\ \E i \in 1..Len(d.codes) : d.codes[i] = r.v.v THEN r ELSE R(DErr(r.ds), Missing)
       [] d.k = "struct" ->
            LET r == DecComposite(d.ps, ds) IN
            IF r.ds.err \/ d.bs < 0 THEN r
@@ -414,6 +419,7 @@ ListStaticBits(ps, i, cur, maxb) ==
              c0 == IF p.bp >= 0 THEN p.bp ELSE cur
              c1 == c0 + (((IF p.bi >= 0 THEN p.bi ELSE 0) + n + 7) \div 8)
          IN IF n < 0 THEN -1 ELSE ListStaticBits(ps, i + 1, c1, IF c1 > maxb THEN c1 ELSE maxb)
+\* (the library reports no static length for DTC objects; C08 only speaks about lengths that are reported)
 DopStaticBits(d) == CASE d.k = "simple" -> DctStaticBits(d.dct)
                       [] d.k = "struct" -> IF d.bs >= 0 THEN 8 * d.bs ELSE ListStaticBits(d.ps, 1, 0, 0)
                       [] OTHER -> -1
